@@ -105,6 +105,9 @@ Fixpoint find_newline (l : list token) (i : Z) : Z :=
   | t :: r => if is_newline t then i else find_newline r (i + 1)
   end.
 
+(* index of the first newline token at or after ee (len(tokens) if there is none) *)
+Definition newline_after (ee : Z) : Z := find_newline (skipn (Z.to_nat ee) ts) ee.
+
 Definition hidden_of (t : tree) : list tree :=
   match strip_paren t with Node _ _ _ _ fs => filter is_hidden fs | _ => [] end.
 
@@ -456,7 +459,7 @@ Definition if_def (pos ii : Z) : M tree :=
   | Some ee =>
     (* PICO-8 short form: the body may not pass the next newline token *)
     prev <- get_max ;;
-    _ <- set_max (Some (find_newline (skipn (Z.to_nat ee) ts) ee)) ;;
+    _ <- set_max (Some (newline_after ee)) ;;
     b <- r_chunk R ;; b <- assert_node b ;;
     el <- accept (pkw "else"%bs) ;;
     ep <- match el with
